@@ -14,7 +14,7 @@ THEOREMS = ["C12_inc_forms_int", "C12_block_of_one", "C12_if_true_is_body", "C12
             "C12_condition_must_be_boolean", "C12_while_condition_must_be_boolean",
             "C12_pure_expression_any_context", "C12_same_operands", "C12_statement_used_or_discarded",
             "C12_condition_class", "C12_negated_if_swap_compiled", "C12_inc_forms", "C12_same_operands_via_temp", "C12_same_operands_via_temp_error",
-            "C12_increment_via_temp"]
+            "C12_increment_via_temp", "C12_body_expression_any_context", "C12_call_used_or_discarded"]
 
 PRELUDE = [
     "gi = 7", "gj = 3", "gf = 2.5", "gs = \"hey\"", "ga = [4, 5, 6]", "gb = true", "gc = false", "gaa = [[1, 2], [3]]",
